@@ -70,4 +70,36 @@ def canon_real(o):
                 if 'relmap' in d:
                     d['relmap'] = sorted(d['relmap'], key=lambda r: json.dumps(r, sort_keys=True, default=str))
     o['ilis'] = sorted(o['ilis'], key=lambda r: json.dumps(r, default=str))
+    for d in o['lexicons'].values():
+        for f in ('extensions', 'all_extensions'):
+            if f in d:
+                d[f] = sorted(d[f])
     return o
+
+
+def strip_ghost_tags(o, m):
+    """Remove from a real observation, once each, the tags/pronunciations that the model attributes to
+    extensions removed earlier (they have no owner column and survive - known finding).  Returns the number removed."""
+    t = m.tables()
+    n = 0
+    for ekey, e in t.entries.items():
+        w = o['words'].get(ekey)
+        if not isinstance(w, dict):
+            continue
+        for f in e['forms']:
+            ghosts_t = [[tg, c] for o_, tg, c in f['tags'] if o_.startswith('~')]
+            ghosts_p = [p for o_, p in f['prons'] if o_.startswith('~')]
+            if not ghosts_t and not ghosts_p:
+                continue
+            for wf in w['forms']:
+                if wf['form'] == f['form'] and wf['id'] == f['id'] and wf['script'] == f['script']:
+                    for g in ghosts_t:
+                        if g in wf['tags']:
+                            wf['tags'].remove(g)
+                            n += 1
+                    for g in ghosts_p:
+                        if g in wf['prons']:
+                            wf['prons'].remove(g)
+                            n += 1
+                    break
+    return n
